@@ -475,7 +475,10 @@ def run(tier, replay):
         'decoder (Hex.decode); in the theorems it is a parameter whose only assumed property is that Hex.decode of its output is the '
         'image (offset, bytes), for offsets with 0 <= offset and offset + size <= 2^32',
         'failures of the operating system while writing (unwritable -o path, missing parent directory, full disk) are not assembler '
-        'failures and are outside the claim; the model marks them unsupported',
+        'failures and are outside the claim (the property quantifies over failures raised by the passes of the assembler); the model '
+        'follows them faithfully all the same (ExitStatus.osError: the -l file stays written when -o cannot be opened; an unwritable '
+        '.hex ends with exit status 0 because the return value of bin2hex is ignored) - theorem os_failure_after_labels_written; '
+        'this check plants none',
         'operating-system behaviour of os.path / open is trusted (filesystem = map from absolute normalised paths to contents)',
     ]
     if not rep.violations and ob['failed']:
